@@ -24,6 +24,16 @@ def addU (l : List String) (x : String) : List String := if l.contains x then l 
 
 def str? (h : String) : Option String := (unhex h).map bytesToString
 
+/-- the harness' prefix-agnostic bech32 decode of an address string: `!` (not bech32) or `<hex of hrp>.<payload hex>` -/
+def bech? (f : String) : Option (Option Bech32) :=
+  if f == "!" then some none
+  else match f.splitOn "." with
+    | [h, b] =>
+      match str? h with
+      | some hrp => some (some { hrp := hrp, bytes := if b == "-" then "" else b })
+      | none => none
+    | _ => none
+
 def kind? : String → Option Kind
   | "mb" => some .minterBurner
   | "dbm" => some .directBalance
@@ -147,20 +157,20 @@ def step (st : St) (line : String) : St × String :=
     | some d => ({ st with w := Convert.step B st.w (.setSendEnabled d (bit b)) }, "ok")
     | none => bad
   | ["suicide", c] => ({ st with w := Convert.step B st.w (.selfdestruct c) }, "ok")
-  | ["cc", s, r, d, amt] =>
-    match str? r, str? d, amt.toInt? with
-    | some r, some d, some amt =>
-      let m : MsgCoin := { denom := d, amount := amt, receiver := r, sender := if s == "!" then none else some s }
+  | ["cc", _sraw, sdec, r, d, amt] =>
+    match bech? sdec, str? r, str? d, amt.toInt? with
+    | some sender, some r, some d, some amt =>
+      let m : MsgCoin := { denom := d, amount := amt, receiver := r, sender := sender }
       let (w', res) := deliverCoin B st.w m
       ({ st with w := w' }, resStr res)
-    | _, _, _ => bad
-  | ["ce", c, amt, r, s, d] =>
-    match str? c, amt.toInt?, str? s, str? d with
-    | some c, some amt, some s, some d =>
-      let m : MsgERC20 := { contract := c, amount := amt, receiver := if r == "!" then none else some r, sender := s, denom := d }
+    | _, _, _, _ => bad
+  | ["ce", c, amt, _rraw, rdec, s, d] =>
+    match str? c, amt.toInt?, bech? rdec, str? s, str? d with
+    | some c, some amt, some receiver, some s, some d =>
+      let m : MsgERC20 := { contract := c, amount := amt, receiver := receiver, sender := s, denom := d }
       let (w', res) := deliverERC20 B st.w m
       ({ st with w := w' }, resStr res)
-    | _, _, _, _ => bad
+    | _, _, _, _, _ => bad
   | ["ics", r, _base, v, amt] =>
     match str? v, amt.toInt? with
     | some v, some amt =>
